@@ -168,6 +168,10 @@ class FileSpec:
         self.kinds = [rng.choice(["num", "num", "numE", "txt", "txt", "txtE"]) for _ in range(self.ncols)]
         self.named = rng.random() < 0.5 if named_header is None else named_header
         self.names = ["ha", "hb", "hc", "hd"][: self.ncols]
+        if self.ncols >= 2 and rng.random() < 0.15:
+            # a header name that occurs twice: '#name' is the first column of that name (generators then address the later one by index)
+            a, b = sorted(rng.sample(range(self.ncols), 2))
+            self.names[b] = self.names[a]
         nrows = rng.randint(0, max_rows)
         rows = []
         if self.named:
